@@ -136,3 +136,13 @@ Theorem C07_source_invalidation :
     peq (src_invalidate_cache u h refs key c) (invalidate_cache u h refs key c').
 Proof. exact @tie_invalidate_cache. Qed.
 Print Assumptions C07_source_invalidation.
+
+(* ... and the same-origin test that decides whether a Location / Content-Location target is invalidated (scheme and host
+   compared case-insensitively, the port after the default of the scheme has been filled in) is the one of
+   internal/helpers.go on this run (Generated/SrcOrigin.v, SrcHelpers.v) *)
+From HC.Generated Require Import SrcOrigin SrcHelpers.
+From HC.Proofs Require Import TieHelpers.
+Theorem C07_source_same_origin :
+  (forall a b, src_same_origin a b = same_origin a b) /\ (forall s, src_default_port s = default_port s).
+Proof. split; [exact tie_same_origin|exact tie_default_port]. Qed.
+Print Assumptions C07_source_same_origin.
